@@ -11,7 +11,8 @@ def verdict(it, cert):
 
 
 def run(out, explore=0):
-    items, certs = L.standard_run(out, "C05", explore or 150, want=("c05",), verdict=verdict, with_multi_start=True, subsets=True)
+    items, certs = L.standard_run(out, "C05", explore or 150, want=("c05",), verdict=verdict, with_multi_start=True, subsets=True,
+                                    extra_pools=(("X", 40),))
     # correspondence leg: the printer model (V.Puml.Linearise: networkx dfs_successors, reversed successor order, PATH nodes,
     # operator/event/kill rendering) applied to the PUMLGraph captured at write_puml_string must give exactly the emitted tokens
     if out.coverage.get("discharged"):
